@@ -236,6 +236,7 @@ def run(ctx):
             if e1 != e2 or n1 != n2 or e1 == n1:
                 ctx.violation(f"C12:{label}:eq-not-symmetric", f"{x!r} == {y!r} is {e1}, reverse {e2}; != {n1}/{n2}", {**case, "sig_a": repr(sig_a), "sig_b": repr(sig_b)})
 
+    one_way_routes(ctx, env)
     temperatures(ctx, env)
     levels(ctx, env)
     exact_magnitudes(ctx, env)
@@ -246,6 +247,71 @@ def run(ctx):
     ctx.require("away_from_ties", 100)
     ctx.require("hash_checks", 5)
     ctx.require("pairs/M-M", 100)
+
+
+def one_way_routes(ctx, env):
+    """pairs of units between which the planner finds a conversion in one direction only (a named volume against a unit
+    declared as the cube of a length, ...).  Both a == b and b == a then rest on the one conversion there is - Python hands
+    the comparison to the other operand when the first one cannot convert - so whatever the rounding, the answers of the
+    two argument orders are one answer: == symmetric, != its negation, < mirrored by >, exactly one of < == > true.  The
+    pairs are found by probing (shipped units of a few dimensions, and the program's own crate = span**3 family); b is a
+    converted by the library itself, so the two are equal as far as the library can tell"""
+    m, pools, rng = env.m, env.pools, ctx.rng
+    Q, CNF = m.Quantity, env.conv.ConversionNotFound
+
+    def converts(x, u):
+        try:
+            return Q(x, u[0]).in_unit(u[1])
+        except CNF:
+            return None
+        except Exception:
+            return "error"
+
+    tag = f"zqc12ow{ctx.shard}"
+    span = m.Unit.define(m.Length, f"{tag}span", f"{tag}sp")
+    span.equals(2 * m.Unit._by_name["meter"])
+    own = [m.Unit.derive(span**3, f"{tag}crate", f"{tag}cr"), m.Unit.derive(span**2, f"{tag}plot", f"{tag}pl"),
+           m.Unit.derive(span / m.Unit._by_name["second"], f"{tag}pace", f"{tag}pc")]
+    candidates = []
+    for o in own:
+        for nm in pools.by_dim_moderate.get(env.mdl.dim_of_unit(o), []):
+            candidates.append((o, pools.units[nm]))
+    for dim_units in pools.by_dim_moderate.values():
+        us = [pools.units[n] for n in dim_units]
+        if 3 <= len(us) <= 60:
+            for _ in range(40 if ctx.tier == "quick" else 400):
+                candidates.append(tuple(rng.sample(us, 2)))
+    rng.shuffle(candidates)
+    found = 0
+    for ua, ub in candidates[: (1500 if ctx.tier == "quick" else 30000)]:
+        ctx.count("unit_pairs_probed_for_one_way_routes")
+        there, back = converts(3, (ua, ub)), converts(3, (ub, ua))
+        if "error" in (there, back) or (there is None) == (back is None):
+            continue
+        if there is None:
+            ua, ub, there = ub, ua, back
+        found += 1
+        a, b = Q(3, ua), there          # a converts into b's unit; b's unit does not convert back
+        case = {"a": repr(a), "b": repr(b)}
+        ctx.count("evaluations")
+        ctx.count("pairs/Q-Q/one_way_route")
+        ctx.distinct(("one-way", str(ua), str(ub)), True)
+        try:
+            t = {"eq": a == b, "ne": a != b, "lt": a < b, "le": a <= b, "gt": a > b, "ge": a >= b,
+                 "req": b == a, "rne": b != a, "rlt": b < a, "rle": b <= a, "rgt": b > a, "rge": b >= a}
+        except Exception as e:
+            ctx.violation(f"C12:comparison-raised:{type(e).__name__}:one-way-route", f"{a!r} against {b!r} (its own conversion): {e}", case)
+            continue
+        if t["eq"] != t["req"] or t["ne"] != t["rne"] or t["eq"] == t["ne"]:
+            ctx.violation("C12:eq-not-symmetric", f"{a!r} and {b!r} (the library's own conversion of it; only this direction converts): == {t['eq']}, reversed {t['req']}, "
+                          f"!= {t['ne']}, reversed {t['rne']}", case)
+        if t["lt"] != t["rgt"] or t["gt"] != t["rlt"] or t["le"] != t["rge"] or t["ge"] != t["rle"]:
+            ctx.violation("C12:order-operators-do-not-mirror", f"{a!r} and {b!r} (only one direction converts): {t}", case)
+        if sum(1 for k in ("lt", "eq", "gt") if t[k]) != 1 or sum(1 for k in ("rlt", "req", "rgt") if t[k]) != 1:
+            ctx.violation("C12:not-exactly-one-of-lt-eq-gt", f"{a!r} and {b!r} (only one direction converts): {t}", case)
+        if t["le"] != (t["lt"] or t["eq"]) or t["rle"] != (t["rlt"] or t["req"]):
+            ctx.violation("C12:le-is-not-lt-or-eq", f"{a!r} and {b!r} (only one direction converts): {t}", case)
+    ctx.count("one_way_routes_found", found)
 
 
 def ladders(ctx, env):
